@@ -120,6 +120,17 @@ func (r *cnRec) add(kind, id string, data interface{}, key string) {
 
 type cnSubIDKey struct{}
 
+// application errors with a text for the log and another one for the client: only the latter may travel
+type cnAppErr struct{}
+
+func (cnAppErr) Error() string          { return "secret-app-log-text" }
+func (cnAppErr) SanitizedError() string { return "app-client-text" }
+
+type cnAppErrP struct{}
+
+func (*cnAppErrP) Error() string          { return "secret-app-log-text" }
+func (*cnAppErrP) SanitizedError() string { return "app-client-text" }
+
 func cnSchema(db *cnDB, rec *cnRec) *graphql.Schema {
 	sb := schemabuilder.NewSchema()
 	q := sb.Query()
@@ -223,6 +234,8 @@ func cnSchema(db *cnDB, rec *cnRec) *graphql.Schema {
 	m.FieldFunc("failing", func(ctx context.Context) (int64, error) {
 		return 0, errors.New("secret-mutation-text")
 	})
+	m.FieldFunc("failingApp", func(ctx context.Context) (int64, error) { return 0, cnAppErr{} })
+	m.FieldFunc("failingAppP", func(ctx context.Context) (int64, error) { return 0, &cnAppErrP{} })
 	return sb.MustBuild()
 }
 
@@ -488,7 +501,7 @@ func cnRun(cs cnCase) *cnResult {
 		case "mutate":
 			send(map[string]interface{}{"id": id, "type": "mutate", "message": map[string]interface{}{"query": fmt.Sprintf("mutation M { setN(v: %d) }", a.Arg), "variables": map[string]interface{}{}}})
 		case "mutateFail":
-			send(map[string]interface{}{"id": id, "type": "mutate", "message": map[string]interface{}{"query": "mutation M { failing }", "variables": map[string]interface{}{}}})
+			send(map[string]interface{}{"id": id, "type": "mutate", "message": map[string]interface{}{"query": "mutation M { " + []string{"failing", "failingApp", "failingAppP"}[a.ID%3] + " }", "variables": map[string]interface{}{}}})
 		case "echo":
 			send(map[string]interface{}{"id": id, "type": "echo"})
 		case "malformed":
